@@ -511,6 +511,7 @@ package resource_info
 //@     invariant forall k in visited :: k in r.scalarResources && r.scalarResources[k] == ite(old(k in r.scalarResources) && old(r.scalarResources[k]) >= rr.scalarResources[k], old(r.scalarResources[k]), rr.scalarResources[k])
 //@     invariant forall k v1.ResourceName :: !(k in visited) ==> r.scalarResources[k] == old(r.scalarResources[k]) && (k in r.scalarResources <==> old(k in r.scalarResources))
 //@   ensures r != nil && rr != nil ==> r.milliCpu == max(old(r.milliCpu), rr.milliCpu) && r.memory == max(old(r.memory), rr.memory) && r.scalarResources != nil
+//@   ensures [mapKept] r != nil && rr != nil ==> ite(old(r.scalarResources) != nil, r.scalarResources == old(r.scalarResources), fresh(r.scalarResources))
 //@   ensures r != nil && rr != nil ==> forall k v1.ResourceName :: (k in r.scalarResources <==> old(k in r.scalarResources) || k in rr.scalarResources) && r.scalarResources[k] == ite(k in rr.scalarResources && !(old(k in r.scalarResources) && old(r.scalarResources[k]) >= rr.scalarResources[k]), rr.scalarResources[k], old(r.scalarResources[k]))
 //@ end
 
@@ -530,4 +531,12 @@ package resource_info
 //@   requires r != nil && rr != nil ==> r.draGpuCounts != nil && r.migResources != nil && r.draGpuCounts != rr.draGpuCounts && r.migResources != rr.migResources && (r.scalarResources != rr.scalarResources || r.scalarResources == nil)
 //@   modifies r.milliCpu, r.memory, r.scalarResources, r.scalarResources[*], r.count, r.portion, r.draGpuCounts[*], r.migResources[*], draSum(r.draGpuCounts)
 //@   ensures r != nil && rr != nil ==> r.milliCpu == max(old(r.milliCpu), rr.milliCpu) && r.memory == max(old(r.memory), rr.memory) && r.scalarResources != nil
+//@   ensures [mapKept] r != nil && rr != nil ==> ite(old(r.scalarResources) != nil, r.scalarResources == old(r.scalarResources), fresh(r.scalarResources))
+//@ end
+
+//@ func StringResourceArray
+//@   props C07
+//@   trusted
+//@   note log-line formatting (strings.Builder over (*Resource).String()); read-only, result only used as a log argument
+//@   pure
 //@ end
